@@ -343,6 +343,12 @@ func Finish(r Report, p *Partial) int {
 	}
 	exit := 0
 	nviol := 0
+	// witnesses of earlier runs with the same seed and tier are stale
+	if old, _ := filepath.Glob(filepath.Join(VerifDir(), "replay", r.ID, fmt.Sprintf("seed%d-%s-*", Seed(), Tier()))); len(old) > 0 {
+		for _, d := range old {
+			os.RemoveAll(d)
+		}
+	}
 	for i, a := range unlisted {
 		nviol++
 		dir := filepath.Join(VerifDir(), "replay", r.ID, fmt.Sprintf("seed%d-%s-%d", Seed(), Tier(), i))
